@@ -1,5 +1,6 @@
 """C01: validate_line_column (bounds, operators, defaults, endswith table, raised classes) and
-the table of position-taking Script methods (decorated / delegating)."""
+the table of position-taking Script methods (decorated / delegating); the `.value` reads of
+helpers._iter_arguments with the tests that dominate them."""
 import ast
 from translator.extract import Src, TieBroken, u, lean_list, lean_bool, lean_str
 
@@ -168,3 +169,185 @@ def generate(repo, g):
         g.fp(s, d)
     pu = Src(repo, 'jedi/parser_utils.py')
     g.fp(pu, 'cut_value_at_position')
+    iter_arguments_reads(helpers, g)
+
+
+# ---------------------------------------------------------------------------------------------
+# `.value` reads of helpers._iter_arguments and the tests that dominate them
+
+LEAF_TESTS = ('tree.PythonLeaf', 'tree.Leaf', 'PythonLeaf', 'Leaf')
+
+
+def _conj(test, src):
+    """facts known when `test` is true: [(source, polarity)]"""
+    if isinstance(test, ast.BoolOp) and isinstance(test.op, ast.And):
+        return [f for v in test.values for f in _conj(v, src)]
+    if isinstance(test, ast.UnaryOp) and isinstance(test.op, ast.Not):
+        return _neg(test.operand, src)
+    return [(src(test), True)]
+
+
+def _neg(test, src):
+    """facts known when `test` is false"""
+    if isinstance(test, ast.BoolOp) and isinstance(test.op, ast.Or):
+        return [f for v in test.values for f in _neg(v, src)]
+    if isinstance(test, ast.UnaryOp) and isinstance(test.op, ast.Not):
+        return _conj(test.operand, src)
+    return [(src(test), False)]
+
+
+def _exits(stmts):
+    return bool(stmts) and isinstance(stmts[-1], (ast.Return, ast.Raise, ast.Continue, ast.Break))
+
+
+def value_reads(fn):
+    """every `<subject>.value` read (Load) in `fn`, nested defs included:
+    [(def name, subject source, source of the enclosing comparison / call, [(test source, polarity)])]
+    Sources are canonical: a local name assigned exactly once from an access path
+    (`first = node.children[0]`, `before = nodes_before[i - 1]`) is replaced by that path.
+    The tests are the ones that dominate the read: enclosing `if` / `elif` tests (earlier arms
+    negated), earlier conjuncts of an `and`, earlier `if …: return` statements of the block."""
+    counts = {}
+    for n in ast.walk(fn):
+        targets = []
+        if isinstance(n, ast.Assign):
+            targets = n.targets
+        elif isinstance(n, (ast.AugAssign, ast.AnnAssign, ast.For, ast.comprehension, ast.NamedExpr)):
+            targets = [n.target]
+        elif isinstance(n, (ast.With,)):
+            targets = [i.optional_vars for i in n.items if i.optional_vars is not None]
+        for t in targets:
+            for m in ast.walk(t):
+                if isinstance(m, ast.Name):
+                    counts[m.id] = counts.get(m.id, 0) + 1
+    alias = {}
+
+    class Sub(ast.NodeTransformer):
+        def visit_Name(self, node):
+            if isinstance(node.ctx, ast.Load) and node.id in alias:
+                return ast.parse(alias[node.id], mode='eval').body
+            return node
+
+    def src(node):
+        return u(Sub().visit(ast.parse(u(node), mode='eval').body))
+
+    def is_path(e):
+        while isinstance(e, (ast.Attribute, ast.Subscript)):
+            e = e.value
+        return isinstance(e, ast.Name)
+
+    reads = []
+
+    def expr(e, path, encl, where):
+        if isinstance(e, ast.BoolOp):
+            p = list(path)
+            for v in e.values:
+                expr(v, p, encl, where)
+                p += _conj(v, src) if isinstance(e.op, ast.And) else _neg(v, src)
+            return
+        if isinstance(e, ast.IfExp):
+            expr(e.test, path, encl, where)
+            expr(e.body, path + _conj(e.test, src), encl, where)
+            expr(e.orelse, path + _neg(e.test, src), encl, where)
+            return
+        if isinstance(e, (ast.Compare, ast.Call)):
+            encl = e
+        if isinstance(e, ast.Attribute) and e.attr == 'value' and isinstance(e.ctx, ast.Load):
+            reads.append((where, src(e.value), src(encl) if encl is not None else '', list(path)))
+        for c in ast.iter_child_nodes(e):
+            if isinstance(c, (ast.expr, ast.comprehension, ast.keyword, ast.arguments, ast.arg)):
+                expr(c, path, encl, where)
+
+    def block(stmts, path, where):
+        path = list(path)
+        for s in stmts:
+            stmt(s, path, where)
+            if isinstance(s, ast.If) and not s.orelse and _exits(s.body):
+                path += _neg(s.test, src)
+
+    def stmt(s, path, where):
+        if isinstance(s, ast.If):
+            expr(s.test, path, None, where)
+            block(s.body, path + _conj(s.test, src), where)
+            block(s.orelse, path + _neg(s.test, src), where)
+        elif isinstance(s, (ast.For, ast.While)):
+            expr(s.iter if isinstance(s, ast.For) else s.test, path, None, where)
+            block(s.body, path, where)
+            block(s.orelse, path, where)
+        elif isinstance(s, (ast.FunctionDef, ast.AsyncFunctionDef)):
+            block(s.body, [], s.name)
+        elif isinstance(s, (ast.With, ast.Try)):
+            raise TieBroken('helpers.py:_iter_arguments contains a with/try statement (not modelled)', u(s)[:200])
+        else:
+            for c in ast.iter_child_nodes(s):
+                if isinstance(c, ast.expr):
+                    expr(c, path, None, where)
+            if isinstance(s, ast.Assign) and len(s.targets) == 1 and isinstance(s.targets[0], ast.Name) \
+                    and counts.get(s.targets[0].id) == 1 and is_path(s.value):
+                alias[s.targets[0].id] = src(s.value)
+
+    block(fn.body, [], fn.name)
+    return reads
+
+
+def guard_kind(subject, test, polarity):
+    """1 `S.type == 'name'`  2 not `S.type != 'name'`  3 `isinstance(S, <parso leaf class>)`
+    4 `S == '<str>'` (only parso Operator / Keyword leaves compare equal to a str)
+    5 `S in ('<str>', ...)`   0 anything else"""
+    import re
+    if polarity and test == "%s.type == 'name'" % subject:
+        return 1
+    if not polarity and test == "%s.type != 'name'" % subject:
+        return 2
+    if polarity and test in ['isinstance(%s, %s)' % (subject, c) for c in LEAF_TESTS]:
+        return 3
+    if polarity and re.fullmatch(re.escape(subject) + r" == '[^'\\]*'", test):
+        return 4
+    if polarity and re.fullmatch(re.escape(subject) + r" in \('[^'\\]*'(, '[^'\\]*')*,?\)", test):
+        return 5
+    return 0
+
+
+def iter_arguments_reads(helpers, g):
+    fn = helpers.find('_iter_arguments')
+    rows = []
+    docs = []
+    for where, subject, encl, path in value_reads(fn):
+        has = lambda t, p=True: (t, p) in path
+        if where == 'remove_after_pos' and subject == 'name':
+            site = 1
+        elif subject == 'node.children[0]' and has("node.type == 'argument'"):
+            site = 2 if has("node.children[1] == '='") else 3
+        elif subject == 'node' and encl == "node.value == ','":
+            site = 4
+        elif subject == 'node' and encl == "node.value in ('*', '**')":
+            site = 5
+        elif subject == 'node' and encl == 'len(node.value)':
+            site = 6
+        elif subject == 'nodes_before[i - 1]' and has("node == '='"):
+            site = 7
+        else:
+            raise TieBroken('helpers.py:_iter_arguments reads `.value` at a place the model does not know',
+                            '%s.value in `%s` (in %s) under %r' % (subject, encl, where, path))
+        kinds = [(guard_kind(subject, t, p), p) for t, p in path]
+        kinds = [(k, p) for k, p in kinds if k]
+        rows.append((site, kinds))
+        docs.append('site %d: %s.value in `%s` of %s; dominating tests on the same object: %s' % (
+            site, subject, encl or subject + '.value', where,
+            [('' if p else 'not ') + t for t, p in path if guard_kind(subject, t, p)] or 'NONE'))
+    g.define('iaReads', 'List (Nat × List (Nat × Bool))',
+             '[' + ', '.join('(%d, [%s])' % (s_, ', '.join('(%d, %s)' % (k, lean_bool(p)) for k, p in ks))
+                             for s_, ks in rows) + ']',
+             "jedi/api/helpers.py:_iter_arguments: every `<x>.value` read as (site, [(kind of a dominating test on x, "
+             "polarity)]); sites 1 remove_after_pos 2 keyword argument first 3 star argument first 4 `node.value == ','` "
+             "5 `node.value in ('*', '**')` 6 `len(node.value)` 7 the node before a bare `=`; kinds 1 `x.type == 'name'` "
+             "2 `x.type != 'name'` (negated) 3 `isinstance(x, tree.PythonLeaf)` 4 `x == '<str>'` 5 `x in ('<str>', ..)`")
+    g.define('iaReadsDoc', 'List String', lean_list(docs), 'jedi/api/helpers.py:_iter_arguments (the same, readable)')
+    # the statements the model transcribes literally (a change of one of them is a change of shape)
+    tests = [u(n.test) for n in ast.walk(fn) if isinstance(n, ast.If)]
+    g.define('iaTests', 'List String', lean_list(tests), 'jedi/api/helpers.py:_iter_arguments (if tests, ast.walk order)')
+    yields = [u(n.value) if n.value is not None else '' for n in ast.walk(fn) if isinstance(n, (ast.Yield, ast.YieldFrom))]
+    g.define('iaYields', 'List String', lean_list(yields), 'jedi/api/helpers.py:_iter_arguments (yield expressions, ast.walk order)')
+    g.fp(helpers, '_iter_arguments')
+    g.fp(helpers, 'get_signature_details')
+    g.fp(helpers, '_get_signature_details_from_error_node')
